@@ -360,7 +360,9 @@ def post_selection_analyzer(
         if gate is None:
             post_selection.append(False)
             continue
-        can_ps = not all(q in has_ps for q in gate)
+        # Post-selection is only valid if at most one qubit of the gate is used
+        # by a later multi-qubit gate
+        can_ps = sum(q in has_ps for q in gate) <= 1
         post_selection.append(can_ps)
         has_ps += gate
     # Return if a gate can have post-selection and all modes which will require
